@@ -40,9 +40,9 @@ type Step struct {
 
 // Actor is one goroutine of the case.
 type Actor struct {
-	Kind     string `json:"kind"`          // "S" subscriber, "P" publisher
-	ID       int    `json:"id"`            // actor identity (publishers may share a subscriber's identity)
-	Steps    []Step `json:"steps"`         // main phase
+	Kind     string `json:"kind"`           // "S" subscriber, "P" publisher
+	ID       int    `json:"id"`             // actor identity (publishers may share a subscriber's identity)
+	Steps    []Step `json:"steps"`          // main phase
 	Tail     []Step `json:"tail,omitempty"` // publishers: run concurrently with the final unsubscribes
 	FinalPre int    `json:"fpre,omitempty"` // subscribers: jitter before the final unsubscribe
 }
@@ -83,8 +83,8 @@ func genScript() *rapid.Generator[Script] {
 			return 0
 		}
 		lazyLeft := rapid.IntRange(0, 2).Draw(t, "lazy") // at most two non-draining subscriber actors
-		noiseLeft := 3                                    // DocWatched events are not de-duplicated: bound them (see waitCap)
-		maxWait := kit.Pick(20, 30)                         // x10 ms per actor
+		noiseLeft := 3                                   // DocWatched events are not de-duplicated: bound them (see waitCap)
+		maxWait := kit.Pick(20, 30)                      // x10 ms per actor
 		for i := 0; i < nSub; i++ {
 			a := Actor{Kind: "S", ID: i, FinalPre: rapid.IntRange(0, 7).Draw(t, "fpre")}
 			lazy := false
@@ -822,6 +822,7 @@ func TestC17Scripts(t *testing.T) {
 		col.Flush(true)
 	}()
 	gen := genScript()
+	evals := 0
 	rapid.Check(t, func(rt *rapid.T) {
 		sc := gen.Draw(rt, "script")
 		h := hashOf(sc)
@@ -840,6 +841,9 @@ func TestC17Scripts(t *testing.T) {
 		col.Record(h, out.nonTrivial && out.fail == nil, scriptClasses(sc, out.ev), func() any {
 			return map[string]any{"script": sc, "events": out.ev}
 		})
+		if evals++; evals%25 == 0 {
+			col.Flush(false) // keep the shard file fresh: the process may be killed by a crash in the code under test
+		}
 		if out.fail != nil {
 			if out.fail.Kind == "HARNESS" {
 				harnessErr = out.fail.Msg
